@@ -237,8 +237,25 @@ func genC12(t *rapid.T) c12Case {
 	vLongNameOneIn = 4 // names longer than the 27/20-column fields
 	defer func() { vLongNameOneIn = 10 }()
 	exact := rapid.IntRange(0, 3).Draw(t, "exact") > 0
-	s := vGenScenario(t, vScenOpts{Paths: rapid.Bool().Draw(t, "paths"), MinDays: 0, MaxDays: 0, Exact: &exact, NUnknown: 3})
+	// category paths over an alphabet in which one segment is a proper prefix of another ("a" / "ax" / "a b")
+	s := vGenScenario(t, vScenOpts{Paths: rapid.Bool().Draw(t, "paths"), MinDays: 0, MaxDays: 0, Exact: &exact, NUnknown: 3, PathSegs: []string{"a", "ax", "b", "a b", "dd", "c"}, PathMax: 4})
 	foods := append(append(append([]string{}, s.Recipes...), s.Basics...), s.Unknown...)
+	// one history in three knows two pairs of recipes whose name and quantity spell the same text when glued together
+	// ("gl~b1" 2 / "gl~b" 12, 15 "gl~c" / 1 "5gl~c"); its days use them with exactly those quantities now and then
+	var twinEntries [][2]string
+	if rapid.IntRange(0, 2).Draw(t, "twins") == 0 {
+		plainL := vLayout{Indent: "  ", Sep: ": ", EOL: "\n"}
+		e, e2 := s.Basics[0], s.Basics[len(s.Basics)-1]
+		for _, r := range [][]string{{"gl~b", e, "2"}, {"gl~b1", e, "3", e2, "1"}, {"gl~c", e, "2"}, {"5gl~c", e, "3", e2, "1"}} {
+			rec := vRec{Head: r[0], HL: vLayout{EOL: "\n"}}
+			for i := 1; i+1 < len(r); i += 2 {
+				rec.Lines = append(rec.Lines, vLine{Kind: vkEntry, Name: r[i], Num: r[i+1], L: plainL})
+			}
+			s.Book.Recs = append(s.Book.Recs, rec)
+		}
+		s.Book.NoFinalNL = false
+		twinEntries = [][2]string{{"gl~b1", "2"}, {"gl~b", "12"}, {"gl~c", "15"}, {"5gl~c", "1"}}
+	}
 	c := c12Case{S: s}
 	c.S.Log = vDoc{}
 	c.S.Days = nil
@@ -273,6 +290,10 @@ func genC12(t *rapid.T) c12Case {
 				num = vGenQtyExact(rt, "q")
 			} else {
 				num = vGenNumDecimal(rt, "q")
+			}
+			if twinEntries != nil && rapid.IntRange(0, 3).Draw(rt, "twin") == 0 {
+				te := twinEntries[rapid.IntRange(0, len(twinEntries)-1).Draw(rt, "twini")]
+				nm, num = te[0], te[1]
 			}
 			lines = append(lines, vLine{Kind: vkEntry, Name: nm, Num: num, L: vGenEntryLayout(rt, lo, "el")})
 		}
